@@ -10,7 +10,9 @@ ID = "C10"
 AREA = "c10"
 LEAN_PROPS = "Litep2pVerif.Props.C10"
 THEOREMS = ["remembered_only_if", "supported_implies_parse", "store_bounded", "evict_min", "rescore_exact",
-            "dial_result_rescores_used_address", "rediscovery_keeps_score", "dial_order"]
+            "dial_result_rescores_used_address", "rediscovery_keeps_score", "dial_order",
+            "listen_address_roundtrip", "listener_binds_only_sockets", "reported_dialable_and_local", "local_dial_sound",
+            "lookup_respects_dns_type", "public_addresses_name_local", "handle_dial_guarded"]
 CONSTS = ["ADDR_MAX_ADDRESSES", "ADDR_CONNECTION_ESTABLISHED", "ADDR_CONNECTION_FAILURE_NEG",
           "ADDR_PUBLIC_ADDRESS_BONUS", "ADDR_FAILURE_IS_I32_MIN"]
 _A = "src/transport/manager/address.rs"
@@ -31,7 +33,14 @@ MANIFEST = {
             "minimum, rediscovery rule, addresses(limit)) and the manager's score-update and dial-selection paths, proved "
             "for every hash-map iteration order and every operation history; plus a seeded correspondence run of the real "
             "TransportManagerHandle / AddressStore / TransportManager code against the model (checker mode for hash-order "
-            "dependent choices) and a specification-level oracle.",
+            "dependent choices) and a specification-level oracle. Coverage round: SocketListener::new::<TcpAddress> (which "
+            "configured addresses are bound, interface expansion of unspecified binds, DNS/malformed rejection, the reported "
+            "listen addresses and DialAddresses), local_dial_address, AddressType::lookup_ip (A/AAAA filtering per "
+            "/dns,/dns4,/dns6), PublicAddresses, the guards of TransportManagerHandle::dial/dial_address and the bulk "
+            "constructors of AddressStore are modelled with the operating system / resolver as inputs, proved "
+            "(listen_address_roundtrip, listener_binds_only_sockets, reported_dialable_and_local, local_dial_sound, "
+            "lookup_respects_dns_type, public_addresses_name_local, handle_dial_guarded) and driven on the real code "
+            "(real sockets on loopback and the machine's interfaces; a scripted UDP name server for the real hickory resolver).",
     "note": "Trusted: Lean kernel; axioms propext/Classical.choice/Quot.sound; the hand-written model and its tie (sampled "
             "differential runs through src/verif/c10.rs); multiaddr text parsing and IpNetwork::is_global outside the model "
             "(attributes are data); PeerState reduced to Disconnected/Opening/Dialing (C05 owns the full machine).",
@@ -43,7 +52,11 @@ RULE = ("seeded operation histories (cfg tcp/maxout/cap; listen; supported/parse
         "ip4/ip6/dns/dns4/dns6 hosts, unspecified/loopback/private/global IPs, missing/foreign/duplicate/trailing /p2p, "
         "ws/wss/quic/udp/other components; addknown with 1-4 addresses; raw insert with tie/extreme scores; list; "
         "scorefail/established/opened/openfail/dialfailed; dial with limited outbound capacity; more distinct addresses "
-        "than the capacity) run on the real code and on the Lean model; non-trivial = at least one address stored and "
+        "than the capacity; bind over ip4/ip6/unspecified/dns/malformed addresses with OS-chosen and shared ports and "
+        "port reuse, localdial for loopback/global/v4/v6 remotes, accept on every reported address; dns scripts with "
+        "A-only/AAAA-only/both/empty/failing names and resolve of /dns,/dns4,/dns6 + socket + malformed addresses; "
+        "hdial/hdialaddr through the handle, pubadd/pubrm, listening, bulk store constructors) run on the real code "
+        "and on the Lean model; non-trivial = at least one address stored and "
         "one refused or evicted; distinct = distinct (ops, observations) transcripts by SHA-256")
 TRUSTED_BASE = ["Lean 4.33 kernel", "axioms: propext, Classical.choice, Quot.sound only",
                 "hand-written models Model/Addr/*.lean tied to handle.rs/address.rs/mod.rs/listener.rs by this correspondence run",
@@ -52,12 +65,20 @@ TRUSTED_BASE = ["Lean 4.33 kernel", "axioms: propext, Classical.choice, Quot.sou
                 "multiaddr crate (text <-> components), ip_network::is_global, std is_unspecified/is_loopback: attributes are "
                 "inputs of the model",
                 "HashMap/HashSet iteration order modelled as an arbitrary permutation",
-                "every /p2p component of a Multiaddr converts to a litep2p PeerId (C18 accepts_eq_reference)"]
+                "every /p2p component of a Multiaddr converts to a litep2p PeerId (C18 accepts_eq_reference)",
+                "listener part: the operating system (socket/bind/listen results, local_addr, NetworkInterface::show) and "
+                "the hickory resolver are inputs of the model, read off the observation (bound=…, ifaces=…, ans=…); the "
+                "adapter's scripted name server (src/verif/c10_listener.rs) and the canonical `@k` port naming; the order "
+                "of the interface enumeration (differs from call to call) is canonicalised by sorting each listener's group"]
 ASSUMPTIONS = ["listen addresses are registered before addresses are learned (remembered_only_if is stated for a fixed "
                "listen set)",
                "dial results reported by the TCP transport concern addresses handed to it by dial(peer) "
                "(DialFailure/OpenFailure carry the dialed address, ConnectionOpened/Established carry ip|dns + tcp of it)",
-               "PeerState beyond Disconnected/Opening/Dialing is outside this property (C05)"]
+               "PeerState beyond Disconnected/Opening/Dialing is outside this property (C05)",
+               "local_addr() of a socket bound to (ip, p) is (ip, p') (p' = p unless p = 0); no interface address is the "
+               "unspecified address (hypothesis of reported_dialable_and_local)",
+               "TransportManager::dial_address (which also stores the dialed address) is property C05's; here only the "
+               "handle's PeerIdMissing guard is driven"]
 KEEP_PREFIX = 1
 
 
@@ -123,8 +144,10 @@ def gen_addr(rng, peer, valid=0.6):
         return f"{host}/p2p/P{peer}"                                  # no transport
     if r < 0.89:
         return f"/tcp/{port}/p2p/P{peer}"                             # no host
-    if r < 0.93:
+    if r < 0.91:
         return f"/p2p/P{peer}"
+    if r < 0.93:
+        return host                                                    # host only
     if r < 0.97:
         return f"/{rng.choice(TAILS)}{host}/tcp/{port}/p2p/P{peer}"   # leading junk
     return f"{host}/tcp/{port}/{rng.choice(TAILS)}"
@@ -151,10 +174,12 @@ def gen_case(rng, n_ops):
     maxout = rng.choice(["none", "none", 0, 1, 2, 3, 5])
     cap = rng.choice(["default", 1, 2, 3, 3, 4, 5, 8])
     ops = [f"cfg tcp={tcp} maxout={maxout} cap={cap}"]
+    listening = []
     for _ in range(rng.choice([0, 1, 1, 2])):
         h = rng.choice(["/ip4/0.0.0.0", "/ip4/127.0.0.1", "/ip6/::", "/ip6/::1", "/ip4/10.0.0.1", "/ip4/8.8.8.8",
                         "/dns/example.com"])
-        ops.append(f"listen {h}/tcp/{rng.choice(PORTS)}")
+        listening.append(f"{h}/tcp/{rng.choice(PORTS)}")
+        ops.append(f"listen {listening[-1]}")
     pool = {}            # peer -> addresses used so far (for rediscovery / dial results)
     conns = []
     counter = [0]
@@ -174,7 +199,12 @@ def gen_case(rng, n_ops):
     for _ in range(n_ops):
         peer = rng.choice([1, 1, 1, 2, 2, 3, 5])
         r = rng.random()
-        if r < 0.10:
+        if r < 0.02 and listening:
+            # a listen address with other components around it: not the exact address, same ip and port
+            l = rng.choice(listening)
+            ops.append("islocal " + rng.choice([f"{l}/{rng.choice(TAILS)}", f"{l}/{rng.choice(TAILS)}/p2p/P{peer}", f"{l}/p2p/P{peer}",
+                                                l.replace("/tcp/", "/udp/"), l.replace("/tcp/", "/udp/") + "/quic-v1"]))
+        elif r < 0.10:
             ops.append(f"{rng.choice(['supported', 'parse', 'islocal'])} {gen_addr(rng, peer, 0.4)}")
         elif r < 0.38:
             k = rng.choice([1, 1, 1, 2, 2, 3, 4])
@@ -233,13 +263,148 @@ def gen_fill(rng):
     return ops
 
 
+# ------------------------------------------------------------------ listener / DNS / handle families (coverage round)
+
+L4 = ["127.0.0.1", "127.0.0.1", "127.0.0.2", "0.0.0.0", "0.0.0.0", "192.0.2.2", "8.8.8.8", "10.0.0.1"]
+L6 = ["::1", "::1", "::", "::", "fd00::2", "2a00:1450::1"]
+REMOTES = ["127.0.0.1", "127.0.0.9", "8.8.8.8", "10.0.0.1", "192.0.2.2", "0.0.0.0", "::1", "2a00:1450::1", "fd00::2", "::",
+           "fe80::1"]
+
+
+def gen_bind_addr(rng, known_ports):
+    port = "0" if (not known_ports or rng.random() < 0.6) else "@%d" % rng.randrange(0, known_ports + (1 if rng.random() < 0.05 else 0))
+    r = rng.random()
+    if r < 0.50:
+        return f"/ip4/{rng.choice(L4)}/tcp/{port}"
+    if r < 0.76:
+        return f"/ip6/{rng.choice(L6)}/tcp/{port}"
+    if r < 0.85:
+        return f"/{rng.choice(['dns', 'dns4', 'dns6'])}/{rng.choice(['localhost', 'a.test'])}/tcp/{port}"
+    h = rng.choice(["/ip4/127.0.0.1", "/ip6/::1", "/ip4/0.0.0.0"])
+    return rng.choice([f"{h}/udp/{port}", f"{h}", f"/tcp/{port}", f"{h}/tcp/{port}/ws", f"{h}/tcp/{port}/p2p/P1",
+                       f"{h}/tcp/{port}/p2p/P1/p2p/P2", f"{h}/udp/{port}/quic-v1", f"/p2p/P1{h}/tcp/{port}",
+                       f"{h}/tcp/{port}/tls"])
+
+
+def gen_listener(rng):
+    """SocketListener::new over every address family (ports chosen by the OS, `@k` = k-th such port), interface
+    expansion, DNS/malformed addresses, port reuse; local dial addresses; accepting on every reported address."""
+    ops = []
+    known = 0
+    if rng.random() < 0.85:
+        ops.append(f"bind reuse={rng.choice([0, 1])} nodelay={rng.choice([0, 1])} /ip4/127.0.0.1/tcp/0")
+        known = 1
+    for _ in range(rng.choice([1, 1, 2, 3])):
+        n = rng.choice([0, 1, 2, 3, 4, 6])
+        addrs = [gen_bind_addr(rng, known) for _ in range(n)]
+        if rng.random() < 0.3 and known:
+            addrs += ["/ip4/127.0.0.1/tcp/@0", "/ip6/::1/tcp/@0"]          # dual stack on one port
+        ops.append(f"bind reuse={rng.choice([0, 1, 1])} nodelay={rng.choice([0, 1])} " + " ".join(addrs))
+        for _ in range(rng.choice([1, 2, 4])):
+            ops.append(f"localdial {rng.choice(REMOTES)}")
+        for _ in range(rng.choice([0, 1, 2, 3])):
+            ops.append(f"accept {rng.choice([0, 0, 1, 2, 3, 4, 7])}")
+        if rng.random() < 0.04:
+            ops.append(rng.choice(["bind", "bind reuse=1", "localdial", "localdial example.com", "accept x", "bind reuse=1 nodelay=1 /ip4/300.1.1.1/tcp/0"]))
+    return ops
+
+
+ZONES = {
+    "a.test": ("1.2.3.4,5.6.7.8", "-"),
+    "b.test": ("-", "2a00:1450::1"),
+    "c.test": ("9.9.9.9", "2a00:1450::2,fd00::7"),
+    "e.test": ("-", "-"),
+}
+
+
+def gen_dns(rng):
+    """AddressType::lookup_ip against the scripted name server: A/AAAA filtering per /dns, /dns4, /dns6."""
+    ops = []
+    names = list(ZONES)
+    rng.shuffle(names)
+    for nm in names[:rng.choice([2, 3, 4])]:
+        a, aaaa = ZONES[nm]
+        ops.append(f"dns {nm} {a} {aaaa}")
+    if rng.random() < 0.6:
+        ops.append("dns d.test fail")
+    for _ in range(rng.choice([3, 5, 8])):
+        r = rng.random()
+        name = rng.choice(list(ZONES) + ["d.test", "nx.test", "localhost"])
+        kind = rng.choice(["dns", "dns4", "dns6"])
+        port = rng.choice([30333, 1, 443, 65535])
+        if r < 0.7:
+            a = f"/{kind}/{name}/tcp/{port}"
+        elif r < 0.8:
+            a = f"/{kind}/{name}/tcp/{port}/p2p/P{rng.randrange(1, 4)}"
+        elif r < 0.9:
+            a = rng.choice([f"/ip4/{rng.choice(IP4)}/tcp/{port}", f"/ip6/{rng.choice(IP6)}/tcp/{port}"])
+        else:
+            a = rng.choice([f"/{kind}/{name}/udp/{port}", f"/{kind}/{name}", f"/{kind}/{name}/tcp/{port}/ws", f"/tcp/{port}"])
+        ops.append(f"resolve {a}")
+    if rng.random() < 0.3:
+        nm = rng.choice(list(ZONES))
+        ops.append(f"dns {nm} 7.7.7.7 -")                                     # re-scripted name
+        ops.append(f"resolve /{rng.choice(['dns', 'dns4', 'dns6'])}/{nm}/tcp/9")
+    if rng.random() < 0.05:
+        ops.append(rng.choice(["dns", "dns x", "dns x.test 1.2.3 -", "resolve", "resolve x"]))
+    return ops
+
+
+def gen_handle(rng):
+    """Dial requests through TransportManagerHandle, the public address set, listen-address reporting and the bulk
+    constructors of AddressStore."""
+    tcp = 0 if rng.random() < 0.1 else 1
+    ops = [f"cfg tcp={tcp} maxout={rng.choice(['none', 'none', 0, 1, 2])} cap={rng.choice(['default', 2, 3])}"]
+    for _ in range(rng.choice([0, 1, 2])):
+        ops.append(f"listen {rng.choice(['/ip4/127.0.0.1', '/ip4/0.0.0.0', '/ip6/::1', '/ip4/10.0.0.1'])}/tcp/{rng.choice(PORTS)}")
+    pubs = []
+    for _ in range(rng.choice([6, 12, 20])):
+        peer = rng.choice([1, 1, 2, 3])
+        r = rng.random()
+        if r < 0.25:
+            ops.append(f"addknown P{peer} " + " ".join(good_addr(rng, peer, rng.randrange(0, 8)) for _ in range(rng.choice([1, 2, 3]))))
+        elif r < 0.50:
+            ops.append(f"hdial P{rng.choice([peer, peer, peer, 0, 4])}")
+        elif r < 0.58:
+            ops.append(f"hdialaddr {gen_addr(rng, peer, 0.5)}")
+        elif r < 0.75:
+            a = rng.choice([gen_addr(rng, 0, 0.5), gen_addr(rng, peer, 0.5), "-", f"/ip4/1.2.3.4/tcp/{rng.choice(PORTS)}"] + pubs)
+            pubs.append(a)
+            ops.append(f"pubadd {a}")
+        elif r < 0.82:
+            a = rng.choice(pubs + [f"/ip4/1.2.3.4/tcp/30333/p2p/P0", "-"])
+            ops.append(f"pubrm {a if rng.random() < 0.5 or a == '-' or '/p2p/' in a else a + '/p2p/P0'}")
+        elif r < 0.86:
+            ops.append("listening")
+        elif r < 0.90:
+            ops.append(rng.choice([f"openfail c{rng.randrange(0, 3)}", f"dialfailed c{rng.randrange(0, 3)}", "occupy"]))
+        else:
+            kind = rng.choice(["multiaddr", "record", "raw", "ref"])
+            items = []
+            for _ in range(rng.choice([0, 1, 3, 6])):
+                a = rng.choice([good_addr(rng, peer, rng.randrange(0, 5)), gen_addr(rng, peer, 0.5)])
+                items.append(a if rng.random() < 0.3 else f"{a}={gen_score(rng)}")
+            ops.append(f"bulk {kind} " + " ".join(items))
+    ops += ["listening", "hdial P1", "store P1"]
+    return ops
+
+
 def gen_cases(rng, tier):
     n = {"quick": 700, "thorough": 30000, "search": 3000}[tier]
     nf = {"quick": 12, "thorough": 300, "search": 40}[tier]
+    nl = {"quick": 60, "thorough": 1500, "search": 150}[tier]
+    nd = {"quick": 30, "thorough": 600, "search": 60}[tier]
+    nh = {"quick": 120, "thorough": 4000, "search": 400}[tier]
     for i in range(n):
         yield gen_case(rng, rng.choice([5, 10, 20, 35, 60]))
     for i in range(nf):
         yield gen_fill(rng)
+    for i in range(nl):
+        yield gen_listener(rng)
+    for i in range(nd):
+        yield gen_dns(rng)
+    for i in range(nh):
+        yield gen_handle(rng)
 
 
 def mutate_case(rng, case, n):
@@ -263,7 +428,7 @@ def model_lines(case, impl):
     for i, op in enumerate(case):
         o = impl[i] if i < len(impl) else None
         w = op.split()[0] if op.split() else ""
-        if o and w in ("addknown", "insert", "list", "scorefail", "established", "dial", "opened") \
+        if o and w in ("addknown", "insert", "list", "scorefail", "established", "dial", "opened", "bind", "resolve", "hdial") \
                 and not o.startswith(("panic", "skipped", "bad-op")) and " -> " not in op:
             res.append(op + " -> " + o)
         else:
@@ -346,6 +511,190 @@ def to_int(sc):
     return I32_MAX if sc == "max" else I32_MIN if sc == "min" else int(sc)
 
 
+# ---- listener / DNS / public-address rules (specification level, independent of the Lean model)
+
+LISTENER_OPS = ("bind", "localdial", "accept", "dns", "resolve")
+
+
+def parse_sock(x):
+    """`1.2.3.4:@0` / `[::1]:@0` -> (family, ip, port token)."""
+    if x.startswith("["):
+        ip, _, port = x[1:].partition("]:")
+        return ("ip6", ip, port)
+    ip, _, port = x.partition(":")
+    return ("ip4", ip, port)
+
+
+def link_local6(ip):
+    try:
+        import ipaddress
+        return ipaddress.IPv6Address(ip) in ipaddress.IPv6Network("fe80::/10")
+    except Exception:
+        return False
+
+
+def same_ip(a, b):
+    import ipaddress
+    try:
+        return ipaddress.ip_address(a) == ipaddress.ip_address(b)
+    except Exception:
+        return a == b
+
+
+def socket_shape(comps):
+    """What a TCP listener can bind: ip4|ip6, tcp, then nothing or a peer id."""
+    return (len(comps) >= 2 and comps[0][0] in ("ip4", "ip6") and comps[1][0] == "tcp"
+            and (len(comps) == 2 or comps[2][0] == "p2p"))
+
+
+def obs_fields(o):
+    return dict(f.split("=", 1) for f in o.split(" ") if "=" in f)
+
+
+def items_of(x):
+    x = x.strip()
+    if not (x.startswith("[") and x.endswith("]")):
+        return None
+    return [y for y in x[1:-1].split(",") if y]
+
+
+def oracle_listener(v, i, t, o, lst):
+    if t[0] == "bind":
+        f = obs_fields(o)
+        if not all(k in f for k in ("bound", "listen", "back", "dial", "ifaces")):
+            v("bind-observation", f"unreadable observation {o!r}", i)
+            return
+        flags = dict(x.split("=", 1) for x in t[1:] if "=" in x and not x.startswith("/"))
+        inputs = [split_addr(x) for x in t[1:] if x.startswith("/")]
+        bound = [parse_sock(x) for x in items_of(f["bound"]) or []]
+        listen = items_of(f["listen"]) or []
+        back = items_of(f["back"]) or []
+        ifaces = items_of(f["ifaces"])
+        sockety = [c for c in inputs if socket_shape(c)]
+        if len(bound) > len(sockety):
+            v("bind-extra", f"{len(bound)} listeners for {len(sockety)} bindable addresses", i)
+        for fam, ip, port in bound:
+            if not any(c[0][0] == fam and same_ip(c[0][1], ip) and (c[1][1] == "0" or c[1][1] == port) for c in sockety):
+                v("bind-unconfigured", f"listener on {ip}:{port} was not configured (dns and malformed addresses must not bind)", i)
+        socks = []
+        for k, a in enumerate(listen):
+            c = split_addr(a)
+            if not (len(c) == 2 and c[0][0] in ("ip4", "ip6") and c[1][0] == "tcp"):
+                v("listen-shape", f"reported listen address {a} is not ip/tcp", i)
+                continue
+            fam, ip, port = c[0][0], c[0][1], c[1][1]
+            socks.append((fam, ip, port))
+            if k >= len(back) or parse_sock(back[k]) != (fam, ip, port):
+                v("listen-roundtrip", f"the transport's parser maps {a} to {back[k] if k < len(back) else None}", i)
+            if ip_unspecified(fam, ip):
+                v("listen-unspecified", f"unspecified address {a} reported as listen address", i)
+            ok = False
+            for bf, bip, bport in bound:
+                if bf == fam and bport == port and (same_ip(bip, ip) or (ip_unspecified(bf, bip) and ifaces is not None
+                                                                         and any(same_ip(ip, x) for x in ifaces))):
+                    ok = True
+            if not ok:
+                v("listen-unbound", f"reported listen address {a} does not lead to any bound socket {bound}", i)
+        for bf, bip, bport in bound:
+            if not ip_unspecified(bf, bip):
+                if (bf, bip, bport) not in socks and not any(x[0] == bf and x[2] == bport and same_ip(x[1], bip) for x in socks):
+                    v("listen-missing", f"bound socket {bip}:{bport} is not reported as listen address", i)
+            elif ifaces is not None:
+                for x in ifaces:
+                    xf = "ip6" if ":" in x else "ip4"
+                    if xf == bf and not (xf == "ip6" and link_local6(x)) and not ip_unspecified(xf, x):
+                        if not any(y[0] == bf and y[2] == bport and same_ip(y[1], x) for y in socks):
+                            v("listen-missing-iface", f"wildcard listener on port {bport} does not report interface address {x}", i)
+        want_reuse = flags.get("reuse") == "1"
+        if want_reuse:
+            d = items_of(f["dial"][len("reuse:"):]) if f["dial"].startswith("reuse:") else None
+            if d is None:
+                v("dial-addresses", f"port reuse requested but DialAddresses = {f['dial']}", i)
+            elif sorted(d) != sorted(back):
+                v("dial-addresses", f"DialAddresses {d} differ from the listen addresses {back}", i)
+        elif f["dial"] != "noreuse":
+            v("dial-addresses", f"no port reuse requested but DialAddresses = {f['dial']}", i)
+        lst["socks"] = socks
+        lst["back"] = back
+        lst["reuse"] = want_reuse
+    elif t[0] == "localdial":
+        remote = t[1]
+        fam = "ip6" if ":" in remote else "ip4"
+        cands = [x for x in lst.get("socks", []) if x[0] == fam and ip_loopback(*x[:2]) == ip_loopback(fam, remote)]
+        if not lst.get("reuse"):
+            if o != "ok none":
+                v("localdial", f"no port reuse, but local dial address {o}", i)
+        elif o == "err":
+            if cands:
+                v("localdial", f"no local dial address for {remote} although {cands[0]} listens", i)
+        elif o.startswith("ok ") and o != "ok none":
+            f2, ip, port = parse_sock(o[3:])
+            if f2 != fam or not ip_unspecified(f2, ip):
+                v("localdial", f"local dial address {o[3:]} for remote {remote} is not the unspecified address of its family", i)
+            if not any(x[2] == port for x in cands):
+                v("localdial", f"local dial port {port} is not the port of a listen address of the kind of {remote}", i)
+        else:
+            v("localdial", f"port reuse configured, but answer {o!r}", i)
+    elif t[0] == "accept":
+        back = lst.get("back", [])
+        k = int(t[1]) if t[1].isdigit() else None
+        if k is None:
+            return
+        if k >= len(back):
+            if o != "none":
+                v("accept", f"accept on a non-existent listen address answered {o!r}", i)
+        elif o != f"ok {back[k]} peer=1":
+            v("accept-roundtrip", f"connecting to listen address #{k} ({back[k]}) gave {o!r}", i)
+    elif t[0] == "dns":
+        if o == "ok":
+            if len(t) == 3 and t[2] == "fail":
+                lst.setdefault("zones", {})[t[1].lower()] = None
+            elif len(t) == 4:
+                lst.setdefault("zones", {})[t[1].lower()] = ([] if t[2] == "-" else t[2].split(","),
+                                                             [] if t[3] == "-" else t[3].split(","))
+    elif t[0] == "resolve":
+        comps = split_addr(t[1])
+        hosty = len(comps) >= 2 and comps[0][0] in ("ip4", "ip6", "dns", "dns4", "dns6") and comps[1][0] == "tcp" \
+            and (len(comps) == 2 or comps[2][0] == "p2p")
+        if not hosty:
+            if o != "err parse":
+                v("resolve-parse", f"malformed address answered {o!r}", i)
+            return
+        if o == "err parse":
+            v("resolve-parse", "well-formed address refused by the parser", i)
+            return
+        kind, port = comps[0][0], comps[1][1]
+        res = o.split(" ", 2)[2] if o.count(" ") >= 2 else o
+        if kind in ("ip4", "ip6"):
+            want = f"ok {comps[0][1]}:{port}" if kind == "ip4" else f"ok [{comps[0][1]}]:{port}"
+            if res != want and not (res.startswith("ok ") and same_ip(parse_sock(res[3:])[1], comps[0][1]) and parse_sock(res[3:])[2] == port):
+                v("resolve-socket", f"socket address resolved to {res!r}", i)
+            return
+        zone = lst.get("zones", {}).get(comps[0][1].lower(), "unknown")
+        scripted = comps[0][1].lower().endswith(".test")
+        if res.startswith("ok "):
+            fam, ip, p = parse_sock(res[3:])
+            if p != port:
+                v("resolve-port", f"port {port} resolved to {p}", i)
+            if (kind == "dns4" and fam != "ip4") or (kind == "dns6" and fam != "ip6"):
+                v("resolve-family", f"/{kind} resolved to the {fam} address {ip}", i)
+            if scripted:
+                if zone in (None, "unknown"):
+                    v("resolve-foreign", f"{comps[0][1]} has no records but resolved to {ip}", i)
+                elif not any(same_ip(ip, x) for x in (zone[0] if fam == "ip4" else zone[1])):
+                    v("resolve-foreign", f"{ip} is not a record of {comps[0][1]}", i)
+        elif res == "err mismatch":
+            if scripted and zone not in (None, "unknown"):
+                has = zone[0] if kind == "dns4" else zone[1] if kind == "dns6" else zone[0] + zone[1]
+                if has:
+                    v("resolve-mismatch", f"{comps[0][1]} has the {kind} records {has} but IpVersionMismatch was returned", i)
+        elif res == "err resolve":
+            if scripted and zone not in (None, "unknown") and (zone[0] or zone[1]):
+                v("resolve-failed", f"{comps[0][1]} has records {zone} but ResolveError was returned", i)
+        else:
+            v("resolve-observation", f"unreadable observation {o!r}", i)
+
+
 def oracle(case, out):
     bad = []
 
@@ -359,6 +708,8 @@ def oracle(case, out):
     unknown = set()      # peers whose store content is not known to the oracle (attribution lost)
     conn_owner = {}
     used = 0
+    lst = {}             # listener part: last bind, DNS script
+    public = set()       # public address set as last observed
     for i, op in enumerate(case):
         if i >= len(out):
             break
@@ -375,9 +726,14 @@ def oracle(case, out):
             if o == "skipped":
                 break
             continue
+        if t[0] in LISTENER_OPS:
+            oracle_listener(v, i, t, o, lst)
+            continue
         if t[0] == "cfg":
             kvs = dict(x.split("=") for x in t[1:])
             cfg = kvs
+            public = set()
+            listens = []
             maxout = None if kvs["maxout"] == "none" else int(kvs["maxout"])
             for p in (1, 2, 3, 4):
                 if kvs["cap"] != "default":
@@ -392,6 +748,68 @@ def oracle(case, out):
             head, store_txt = o.split(" | ", 1)
         else:
             head = o
+        if t[0] == "hdial":
+            # `<handle result> <what the manager did>`
+            if head.startswith("ok "):
+                head = head[3:]
+                if head == "idle":
+                    head = "inprogress"
+            elif head.endswith(" idle"):
+                head = head[:-5]
+            else:
+                v("handle-dial", f"the handle refused ({head}) but the manager dialed", i)
+            t = ["dial"] + t[1:]
+            if len(t) > 1 and t[1] == "P0" and head != "err self":
+                v("handle-dial", f"dialing the local peer through the handle answered {head!r}", i)
+        if t[0] in ("pubadd", "pubrm"):
+            new_pub = set(parse_list(store_txt)) if store_txt is not None else None
+            if new_pub is not None:
+                for a in new_pub:
+                    if not a.endswith("/p2p/P0") or a.count("/p2p/") < 1:
+                        v("public-foreign", f"public address {a} does not name the local peer", i)
+                offered = "" if t[1] == "-" else t[1]
+                oc = split_addr(offered) if offered else []
+                names_other = bool(oc) and oc[-1][0] == "p2p" and oc[-1][1] != "P0"
+                if t[0] == "pubadd":
+                    if head.startswith("err") and new_pub != public:
+                        v("public-changed", f"refused address changed the public set: {sorted(public)} -> {sorted(new_pub)}", i)
+                    if (names_other or not offered) and not head.startswith("err"):
+                        v("public-accepted", f"address {t[1]} accepted as public address ({head})", i)
+                    if head.startswith("ok") and not (new_pub - public <= {offered, offered + "/p2p/P0"}):
+                        v("public-unoffered", f"public set gained {sorted(new_pub - public)} for offered {offered}", i)
+                    if head == "ok new" and len(new_pub) != len(public) + 1:
+                        v("public-count", "`true` returned but the set did not grow by one", i)
+                    if offered and not names_other and head.startswith("err"):
+                        v("public-refused", f"own address {offered} refused: {head}", i)
+                else:
+                    if not (new_pub <= public) or len(public - new_pub) > 1:
+                        v("public-remove", f"remove changed the set {sorted(public)} -> {sorted(new_pub)}", i)
+                public = new_pub
+            continue
+        if t[0] == "listening":
+            got = set(parse_list(o))
+            for l in listens:
+                a = "".join(f"/{x}" + (f"/{y}" if y is not None else "") for x, y in l)
+                if a not in got or a + "/p2p/P0" not in got:
+                    v("listen-unreported", f"registered listen address {a} is not reported by the handle", i)
+            continue
+        if t[0] == "bulk":
+            st = parse_store(o.rsplit(" ord=", 1)[0])
+            if st is not None and len(st) > MAXA:
+                v("bound", f"bulk-built store holds {len(st)} addresses, bound {MAXA}", i)
+            if not o.endswith(" ord=1"):
+                v("record-order", "AddressRecord comparison is not the comparison of scores", i)
+            if st is not None and len(t) > 1 and t[1] == "multiaddr":
+                for a in st:
+                    if split_addr(a)[-1][0] != "p2p":
+                        v("remembered-foreign", f"{a} stored without a peer id", i)
+            continue
+        if t[0] == "hdialaddr":
+            c = split_addr(t[1])
+            has_peer = bool(c) and c[-1][0] == "p2p"
+            if has_peer != o.startswith("ok ") or ("queued=1" in o) != has_peer:
+                v("handle-dial-address", f"dial_address({t[1]}) through the handle answered {o!r}", i)
+            continue
         if t[0] == "listen":
             c = split_addr(t[1])
             listens.append(c)
@@ -534,9 +952,23 @@ def stats(case, out, acc):
             bump(acc, "addknown:n=" + o.split()[0])
         if t == "dial":
             bump(acc, "dial:" + " ".join(o.split(" | ")[0].split()[:2 if o.startswith("err") else 1]))
+        if t == "bind" and "listen=[" in o:
+            f = obs_fields(o)
+            bump(acc, "bind:listeners=%d" % len(items_of(f.get("bound", "[]")) or []))
+            if any(x.startswith(("0.0.0.0", "[::]")) for x in items_of(f.get("bound", "[]")) or []):
+                bump(acc, "bind:wildcard")
+            bump(acc, "bind:" + f.get("dial", "?").split(":")[0])
+        if t in ("localdial", "accept"):
+            bump(acc, f"{t}:" + " ".join(o.split()[:1]) + (" none" if o == "ok none" else ""))
+        if t == "resolve":
+            w = o.split(" ")
+            bump(acc, "resolve:" + (w[0] + " " + (w[2] if w[2] == "ok" else " ".join(w[2:4])) if len(w) >= 3 else o))
+        if t in ("hdial", "pubadd", "hdialaddr"):
+            bump(acc, f"{t}:" + " ".join(o.split(" | ")[0].split()[:2]))
         if o.startswith("panic"):
             bump(acc, "panic")
-    sizes = [len(parse_store(o.split(" | ", 1)[1]) or {}) for o in out if " | " in o and not o.endswith("-")]
+    sizes = [len(parse_store(o.split(" | ", 1)[1]) or {}) for op, o in zip(case, out)
+             if " | " in o and not o.endswith("-") and not op.startswith("pub")]
     if sizes:
         bump(acc, "max-store:%d" % (10 * (max(sizes) // 10)))
     bump(acc, "case-len:%d" % (10 * (len(case) // 10)))
@@ -546,7 +978,14 @@ def nontrivial(case, out):
     stored = any(" | [/" in o for o in out)
     refused = any(op.startswith("addknown") and o.startswith("0 ") for op, o in zip(case, out)) or \
         any(o == "false" for o in out)
-    return stored and refused
+    if stored and refused:
+        return True
+    # listener / DNS / handle families: something reported or resolved, and something refused
+    good = any(" listen=[/" in o or " ok " in o and op.startswith("resolve") or o.startswith("ok new") or " open c" in o
+               for op, o in zip(case, out))
+    bad = any((op.startswith("bind") and any(x in op for x in ("/dns", "/udp", "/ws"))) or " err " in o or o.startswith("err")
+              for op, o in zip(case, out))
+    return good and bad
 
 
 def matches_known(k, v):
